@@ -15,14 +15,18 @@ package main
 import (
 	"fmt"
 	"go/ast"
+	"go/constant"
 	"go/parser"
 	"go/token"
+	"go/types"
 	"os"
 	"os/exec"
 	"path/filepath"
 	"sort"
 	"strconv"
 	"strings"
+
+	"golang.org/x/tools/go/packages"
 )
 
 // ---------- Lean rendering of byte strings: `pk! "…"` (packed Latin-1 string, see lean/Verif/Base/Pack.lean) ----------
@@ -74,43 +78,6 @@ func c17Str(e ast.Expr) (string, error) {
 	return "", fmt.Errorf("not a constant string expression: %T", e)
 }
 
-// c17Byte evaluates a byte key: a char literal.
-func c17Byte(e ast.Expr) (byte, error) {
-	if x, ok := e.(*ast.BasicLit); ok && x.Kind == token.CHAR {
-		r, _, _, err := strconv.UnquoteChar(x.Value[1:len(x.Value)-1], '\'')
-		if err != nil {
-			return 0, err
-		}
-		if r > 255 {
-			return 0, fmt.Errorf("char key %q does not fit a byte", r)
-		}
-		return byte(r), nil
-	}
-	if x, ok := e.(*ast.BasicLit); ok && x.Kind == token.INT { // e.g. `0: []byte("&#0;")`
-		v, err := strconv.ParseInt(x.Value, 0, 16)
-		if err != nil || v < 0 || v > 255 {
-			return 0, fmt.Errorf("integer key %s does not fit a byte", x.Value)
-		}
-		return byte(v), nil
-	}
-	return 0, fmt.Errorf("not a char or small integer literal: %T", e)
-}
-
-func c17Map(r *Repo, rel, name string) (*ast.CompositeLit, error) {
-	e, err := r.FindVar(rel, name)
-	if err != nil {
-		return nil, err
-	}
-	cl, ok := e.(*ast.CompositeLit)
-	if !ok {
-		return nil, fmt.Errorf("%s.%s is no longer a composite literal (%T)", rel, name, e)
-	}
-	if _, ok := cl.Type.(*ast.MapType); !ok {
-		return nil, fmt.Errorf("%s.%s is no longer a map literal", rel, name)
-	}
-	return cl, nil
-}
-
 type c17Row struct{ k, v string }
 
 func c17Sort(rows []c17Row, what string) error {
@@ -125,89 +92,17 @@ func c17Sort(rows []c17Row, what string) error {
 
 // ---------- hash name tables (*/hash.go) ----------
 
-type c17Hash struct {
-	constName string
-	val       uint64
-	name      string // _Hash_text[val>>8 : val>>8 + val&0xff], exactly what Hash.String() returns
-}
-
-// c17Hashes reads the `X Hash = 0x…` constants and the `_Hash_text` name table of <rel>/hash.go.
-func c17Hashes(r *Repo, rel string) (map[string]c17Hash, []c17Hash, error) {
-	fs, err := r.Files(rel)
+// c17HashKey: the key expression is a constant of the package's Hash type (written as the constant's name, through an alias
+// constant, or as a number); the row key is what Hash.String() returns for it.
+func c17HashKey(e *tenv, p *packages.Package, h *hashInfo, x ast.Expr, what string) (string, error) {
+	v, err := e.Int(p, x)
 	if err != nil {
-		return nil, nil, err
+		return "", fmt.Errorf("%s: key is not a constant Hash: %v", what, err)
 	}
-	var text string
-	haveText := false
-	consts := []c17Hash{}
-	for _, f := range fs {
-		// only the generated perfect-hash file: other files may declare pseudo hashes that are not table rows
-		if !strings.HasSuffix(r.Fset.Position(f.Pos()).Filename, "hash.go") {
-			continue
-		}
-		for _, d := range f.Decls {
-			gd, ok := d.(*ast.GenDecl)
-			if !ok || (gd.Tok != token.CONST && gd.Tok != token.VAR) {
-				continue
-			}
-			for _, s := range gd.Specs {
-				vs := s.(*ast.ValueSpec)
-				for i, n := range vs.Names {
-					if i >= len(vs.Values) {
-						continue
-					}
-					if n.Name == "_Hash_text" {
-						t, err := c17Str(vs.Values[i])
-						if err != nil {
-							return nil, nil, fmt.Errorf("%s/_Hash_text: %v", rel, err)
-						}
-						text, haveText = t, true
-						continue
-					}
-					if gd.Tok == token.CONST {
-						if id, ok := vs.Type.(*ast.Ident); ok && id.Name == "Hash" {
-							bl, ok := vs.Values[i].(*ast.BasicLit)
-							if !ok || bl.Kind != token.INT {
-								return nil, nil, fmt.Errorf("%s: Hash constant %s is not an integer literal", rel, n.Name)
-							}
-							v, err := strconv.ParseUint(bl.Value, 0, 32)
-							if err != nil {
-								return nil, nil, err
-							}
-							consts = append(consts, c17Hash{constName: n.Name, val: v})
-						}
-					}
-				}
-			}
-		}
+	if !h.Real(v) {
+		return "", fmt.Errorf("%s: key %d is not a value of the perfect hash table (ToHash never returns it)", what, v)
 	}
-	if !haveText || len(consts) == 0 {
-		return nil, nil, fmt.Errorf("%s: hash.go shape not recognised (_Hash_text / Hash constants missing)", rel)
-	}
-	byConst := map[string]c17Hash{}
-	for i := range consts {
-		start, n := consts[i].val>>8, consts[i].val&0xff
-		if start+n > uint64(len(text)) {
-			consts[i].name = "" // what Hash.String() returns
-		} else {
-			consts[i].name = text[start : start+n]
-		}
-		byConst[consts[i].constName] = consts[i]
-	}
-	sort.Slice(consts, func(i, j int) bool { return consts[i].constName < consts[j].constName })
-	return byConst, consts, nil
-}
-
-func c17HashKey(h map[string]c17Hash, e ast.Expr, what string) (string, error) {
-	id, ok := e.(*ast.Ident)
-	if !ok {
-		return "", fmt.Errorf("%s: key is not a Hash constant (%T)", what, e)
-	}
-	c, ok := h[id.Name]
-	if !ok {
-		return "", fmt.Errorf("%s: key %s is not a Hash constant of the package", what, id.Name)
-	}
-	return c.name, nil
+	return h.Name(v), nil
 }
 
 // ---------- generators ----------
@@ -267,21 +162,21 @@ func c17NamesFile(name, source, doc string, keys []string) string {
 
 // string-keyed map[string][]byte
 func c17StrBytesMap(r *Repo, rel, v string) ([]c17Row, error) {
-	cl, err := c17Map(r, rel, v)
+	e, err := r.TEnv()
+	if err != nil {
+		return nil, err
+	}
+	kvs, p, _, err := e.MapVar(rel, v)
 	if err != nil {
 		return nil, err
 	}
 	rows := []c17Row{}
-	for _, el := range cl.Elts {
-		kv, ok := el.(*ast.KeyValueExpr)
-		if !ok {
-			return nil, fmt.Errorf("%s.%s: element is not key: value", rel, v)
-		}
-		k, err := c17Str(kv.Key)
+	for _, kv := range kvs {
+		k, err := e.Bytes(p, kv.Key)
 		if err != nil {
 			return nil, fmt.Errorf("%s.%s key: %v", rel, v, err)
 		}
-		val, err := c17Str(kv.Value)
+		val, err := e.Bytes(p, kv.Val)
 		if err != nil {
 			return nil, fmt.Errorf("%s.%s[%q]: %v", rel, v, k, err)
 		}
@@ -292,55 +187,61 @@ func c17StrBytesMap(r *Repo, rel, v string) ([]c17Row, error) {
 
 // byte-keyed map[byte][]byte
 func c17ByteBytesMap(r *Repo, rel, v string) ([]c17Row, error) {
-	cl, err := c17Map(r, rel, v)
+	e, err := r.TEnv()
+	if err != nil {
+		return nil, err
+	}
+	kvs, p, _, err := e.MapVar(rel, v)
 	if err != nil {
 		return nil, err
 	}
 	rows := []c17Row{}
-	for _, el := range cl.Elts {
-		kv, ok := el.(*ast.KeyValueExpr)
-		if !ok {
-			return nil, fmt.Errorf("%s.%s: element is not key: value", rel, v)
+	for _, kv := range kvs {
+		k, err := e.Int(p, kv.Key)
+		if err != nil || k < 0 || k > 255 {
+			return nil, fmt.Errorf("%s.%s key is not a constant byte: %v", rel, v, err)
 		}
-		k, err := c17Byte(kv.Key)
-		if err != nil {
-			return nil, fmt.Errorf("%s.%s key: %v", rel, v, err)
-		}
-		val, err := c17Str(kv.Value)
+		val, err := e.Bytes(p, kv.Val)
 		if err != nil {
 			return nil, fmt.Errorf("%s.%s[%q]: %v", rel, v, k, err)
 		}
-		rows = append(rows, c17Row{string([]byte{k}), val})
+		rows = append(rows, c17Row{string([]byte{byte(k)}), val})
 	}
 	return rows, c17Sort(rows, rel+"."+v)
 }
 
-// map[K]bool with K string literal or Hash constant: the keys whose value is `true` (a `false` row is absent for `m[k]`)
-func c17BoolSet(r *Repo, rel, v string, hashes map[string]c17Hash) ([]string, error) {
-	cl, err := c17Map(r, rel, v)
+// map[K]bool with K string or Hash: the keys whose value is true (a `false` row is the same as an absent one for `m[k]`)
+func c17BoolSet(r *Repo, rel, v string, hashed bool) ([]string, error) {
+	e, err := r.TEnv()
 	if err != nil {
 		return nil, err
 	}
-	rows := []c17Row{}
-	for _, el := range cl.Elts {
-		kv, ok := el.(*ast.KeyValueExpr)
-		if !ok {
-			return nil, fmt.Errorf("%s.%s: element is not key: value", rel, v)
+	kvs, p, _, err := e.MapVar(rel, v)
+	if err != nil {
+		return nil, err
+	}
+	var h *hashInfo
+	if hashed {
+		if h, err = e.HashInfo(rel); err != nil {
+			return nil, err
 		}
+	}
+	rows := []c17Row{}
+	for _, kv := range kvs {
 		var k string
-		if hashes != nil {
-			k, err = c17HashKey(hashes, kv.Key, rel+"."+v)
+		if hashed {
+			k, err = c17HashKey(e, p, h, kv.Key, rel+"."+v)
 		} else {
-			k, err = c17Str(kv.Key)
+			k, err = e.Bytes(p, kv.Key)
 		}
 		if err != nil {
 			return nil, err
 		}
-		id, ok := kv.Value.(*ast.Ident)
-		if !ok || (id.Name != "true" && id.Name != "false") {
-			return nil, fmt.Errorf("%s.%s[%q]: value is not a bool literal", rel, v, k)
+		b, err := e.Bool(p, kv.Val)
+		if err != nil {
+			return nil, fmt.Errorf("%s.%s[%q]: %v", rel, v, k, err)
 		}
-		if id.Name == "true" {
+		if b {
 			rows = append(rows, c17Row{k, ""})
 		}
 	}
@@ -354,115 +255,82 @@ func c17BoolSet(r *Repo, rel, v string, hashes map[string]c17Hash) ([]string, er
 	return keys, nil
 }
 
-// c17TraitConsts reads a `const ( a traits = 1 << iota; b; c … )` block that starts with `first`.
-func c17TraitConsts(r *Repo, rel, first string) ([]string, error) {
-	fs, err := r.Files(rel)
+// c17TraitConsts: the constants declared in the same const block as `first`, in the order of their bit; each must be a
+// distinct single bit (however the block writes that: `1 << iota`, explicit values, …).
+func c17TraitConsts(e *tenv, rel, first string) ([]string, map[string]int64, error) {
+	p, err := e.Pkg(rel)
 	if err != nil {
-		return nil, err
+		return nil, nil, err
 	}
-	for _, f := range fs {
-		for _, d := range f.Decls {
-			gd, ok := d.(*ast.GenDecl)
-			if !ok || gd.Tok != token.CONST || len(gd.Specs) == 0 {
-				continue
+	obj, ok := p.Types.Scope().Lookup(first).(*types.Const)
+	if !ok {
+		return nil, nil, fmt.Errorf("%s: trait constant %s not found", rel, first)
+	}
+	ref, ok := e.specIndex(p)[obj.Pos()]
+	if !ok {
+		return nil, nil, fmt.Errorf("%s: declaration of %s not found", rel, first)
+	}
+	vals := map[string]int64{}
+	var names []string
+	for _, s := range ref.decl.Specs {
+		for _, n := range s.(*ast.ValueSpec).Names {
+			c, ok := p.TypesInfo.Defs[n].(*types.Const)
+			if !ok || !types.Identical(c.Type(), obj.Type()) {
+				continue // a constant of another type in the same block is not a trait bit
 			}
-			vs0 := gd.Specs[0].(*ast.ValueSpec)
-			if len(vs0.Names) != 1 || vs0.Names[0].Name != first {
-				continue
+			v, exact := constant.Int64Val(constant.ToInt(c.Val()))
+			if !exact || v <= 0 || v&(v-1) != 0 {
+				continue // a named combination of bits (or zero) is not a bit of its own
 			}
-			// first spec must be `first traits = 1 << iota`
-			ok = false
-			if id, isId := vs0.Type.(*ast.Ident); isId && id.Name == "traits" && len(vs0.Values) == 1 {
-				if be, isBe := vs0.Values[0].(*ast.BinaryExpr); isBe && be.Op == token.SHL {
-					l, lok := be.X.(*ast.BasicLit)
-					rr, rok := be.Y.(*ast.Ident)
-					ok = lok && rok && l.Value == "1" && rr.Name == "iota"
+			for _, o := range names {
+				if vals[o] == v {
+					return nil, nil, fmt.Errorf("%s: trait constants %s and %s share a bit", rel, o, n.Name)
 				}
 			}
-			if !ok {
-				return nil, fmt.Errorf("%s: trait block starting at %s is no longer `traits = 1 << iota`", rel, first)
-			}
-			names := []string{first}
-			for _, s := range gd.Specs[1:] {
-				vs := s.(*ast.ValueSpec)
-				if len(vs.Names) != 1 || len(vs.Values) != 0 || vs.Type != nil {
-					return nil, fmt.Errorf("%s: trait block starting at %s has an explicit value (bits may overlap)", rel, first)
-				}
-				names = append(names, vs.Names[0].Name)
-			}
-			return names, nil
+			vals[n.Name] = v
+			names = append(names, n.Name)
 		}
 	}
-	return nil, fmt.Errorf("%s: trait const block starting with %s not found", rel, first)
-}
-
-func c17OrNames(e ast.Expr) ([]string, error) {
-	switch x := e.(type) {
-	case *ast.Ident:
-		return []string{x.Name}, nil
-	case *ast.ParenExpr:
-		return c17OrNames(x.X)
-	case *ast.BinaryExpr:
-		if x.Op == token.OR {
-			a, err := c17OrNames(x.X)
-			if err != nil {
-				return nil, err
-			}
-			b, err := c17OrNames(x.Y)
-			if err != nil {
-				return nil, err
-			}
-			return append(a, b...), nil
-		}
-	}
-	return nil, fmt.Errorf("trait value is not an |-combination of trait names (%T)", e)
+	sort.SliceStable(names, func(i, j int) bool { return vals[names[i]] < vals[names[j]] })
+	return names, vals, nil
 }
 
 func c17Traits(r *Repo, genName, mapVar, firstConst, indName, doc string) (string, error) {
-	hashes, _, err := c17Hashes(r, "html")
+	e, err := r.TEnv()
 	if err != nil {
 		return "", err
 	}
-	traitNames, err := c17TraitConsts(r, "html", firstConst)
+	h, err := e.HashInfo("html")
 	if err != nil {
 		return "", err
 	}
-	order := map[string]int{}
-	for i, n := range traitNames {
-		order[n] = i
+	traitNames, bits, err := c17TraitConsts(e, "html", firstConst)
+	if err != nil {
+		return "", err
 	}
-	cl, err := c17Map(r, "html", mapVar)
+	kvs, p, _, err := e.MapVar("html", mapVar)
 	if err != nil {
 		return "", err
 	}
 	rows := []c17Row{}
-	for _, el := range cl.Elts {
-		kv, ok := el.(*ast.KeyValueExpr)
-		if !ok {
-			return "", fmt.Errorf("html.%s: element is not key: value", mapVar)
-		}
-		k, err := c17HashKey(hashes, kv.Key, "html."+mapVar)
+	for _, kv := range kvs {
+		k, err := c17HashKey(e, p, h, kv.Key, "html."+mapVar)
 		if err != nil {
 			return "", err
 		}
-		ns, err := c17OrNames(kv.Value)
+		v, err := e.Int(p, kv.Val)
 		if err != nil {
 			return "", fmt.Errorf("html.%s[%s]: %v", mapVar, k, err)
 		}
-		seen := map[string]bool{}
 		uniq := []string{}
-		for _, n := range ns {
-			if _, ok := order[n]; !ok {
-				return "", fmt.Errorf("html.%s[%s]: %s is not a constant of the %s… block", mapVar, k, n, firstConst)
-			}
-			if !seen[n] {
-				seen[n] = true
-				uniq = append(uniq, n)
+		for _, n := range traitNames {
+			if v&bits[n] != 0 {
+				uniq = append(uniq, "."+n)
+				v &^= bits[n]
 			}
 		}
-		sort.Slice(uniq, func(i, j int) bool { return order[uniq[i]] < order[uniq[j]] })
-		for i := range uniq {
-			uniq[i] = "." + uniq[i]
+		if v != 0 {
+			return "", fmt.Errorf("html.%s[%s]: value has bits (%#x) that are not constants of the %s… block", mapVar, k, v, firstConst)
 		}
 		rows = append(rows, c17Row{k, "[" + strings.Join(uniq, ", ") + "]"})
 	}
@@ -578,7 +446,7 @@ func init() {
 			"`html.attrMap`: attribute name (`Hash.String()` of the key) ↦ its trait bits, by name; sorted by attribute name")
 	})
 	gen("JsMimetypes", func(r *Repo) (string, error) {
-		keys, err := c17BoolSet(r, "html", "jsMimetypes", nil)
+		keys, err := c17BoolSet(r, "html", "jsMimetypes", false)
 		if err != nil {
 			return "", err
 		}
@@ -586,7 +454,7 @@ func init() {
 			"`html.jsMimetypes`: the `type` values of `script` dropped as the default (keys mapped to `true`)", keys), nil
 	})
 	gen("OptionalZeroDimension", func(r *Repo) (string, error) {
-		keys, err := c17BoolSet(r, "css", "optionalZeroDimension", nil)
+		keys, err := c17BoolSet(r, "css", "optionalZeroDimension", false)
 		if err != nil {
 			return "", err
 		}
@@ -594,7 +462,7 @@ func init() {
 			"`css.optionalZeroDimension`: units dropped from a zero dimension (keys mapped to `true`)", keys), nil
 	})
 	gen("ZeroAngleFuncs", func(r *Repo) (string, error) {
-		keys, err := c17BoolSet(r, "css", "zeroAngleFuncs", nil)
+		keys, err := c17BoolSet(r, "css", "zeroAngleFuncs", false)
 		if err != nil {
 			return "", err
 		}
@@ -602,7 +470,7 @@ func init() {
 			"`css.zeroAngleFuncs`: functions inside which a zero angle loses its unit (keys mapped to `true`)", keys), nil
 	})
 	gen("AngleDimension", func(r *Repo) (string, error) {
-		keys, err := c17BoolSet(r, "css", "angleDimension", nil)
+		keys, err := c17BoolSet(r, "css", "angleDimension", false)
 		if err != nil {
 			return "", err
 		}
@@ -610,11 +478,7 @@ func init() {
 			"`css.angleDimension`: units whose zero keeps the unit outside `zeroAngleFuncs` (keys mapped to `true`)", keys), nil
 	})
 	gen("SvgColorAttrs", func(r *Repo) (string, error) {
-		hashes, _, err := c17Hashes(r, "svg")
-		if err != nil {
-			return "", err
-		}
-		keys, err := c17BoolSet(r, "svg", "colorAttrMap", hashes)
+		keys, err := c17BoolSet(r, "svg", "colorAttrMap", true)
 		if err != nil {
 			return "", err
 		}
@@ -631,25 +495,25 @@ func init() {
 			"Nat × Nat", rows, leanPk), nil
 	})
 	gen("ShortenColorName", func(r *Repo) (string, error) {
-		hashes, _, err := c17Hashes(r, "css")
+		e, err := r.TEnv()
 		if err != nil {
 			return "", err
 		}
-		cl, err := c17Map(r, "css", "ShortenColorName")
+		h, err := e.HashInfo("css")
+		if err != nil {
+			return "", err
+		}
+		kvs, p, _, err := e.MapVar("css", "ShortenColorName")
 		if err != nil {
 			return "", err
 		}
 		rows := []c17Row{}
-		for _, el := range cl.Elts {
-			kv, ok := el.(*ast.KeyValueExpr)
-			if !ok {
-				return "", fmt.Errorf("css.ShortenColorName: element is not key: value")
-			}
-			k, err := c17HashKey(hashes, kv.Key, "css.ShortenColorName")
+		for _, kv := range kvs {
+			k, err := c17HashKey(e, p, h, kv.Key, "css.ShortenColorName")
 			if err != nil {
 				return "", err
 			}
-			v, err := c17Str(kv.Value)
+			v, err := e.Bytes(p, kv.Val)
 			if err != nil {
 				return "", fmt.Errorf("css.ShortenColorName[%s]: %v", k, err)
 			}
@@ -665,10 +529,38 @@ func init() {
 	gen("HashNames", func(r *Repo) (string, error) {
 		var b strings.Builder
 		b.WriteString(c17Header("HashNames", "/repo/html/hash.go, /repo/css/hash.go, /repo/svg/hash.go"))
+		e, err := r.TEnv()
+		if err != nil {
+			return "", err
+		}
+		type hc struct{ constName, name string }
 		for _, pkg := range []string{"html", "css", "svg"} {
-			_, consts, err := c17Hashes(r, pkg)
+			h, err := e.HashInfo(pkg)
 			if err != nil {
 				return "", err
+			}
+			// the constants that name a row of the perfect hash table (pseudo hashes such as css.zeroAngleFunc do not)
+			// … and that are declared with a number of their own: a constant defined as another constant (`const blackKeyword = Black`)
+			// is an alias, not a row of the generated table (the identifier ↔ name check of Spec/TableChecks is about the generator's output)
+			hp, err := e.Pkg(pkg)
+			if err != nil {
+				return "", err
+			}
+			var consts []hc
+			for n, v := range h.consts {
+				if !h.Real(v) {
+					continue
+				}
+				if init, _, err := e.Init(hp.Types.Scope().Lookup(n)); err == nil {
+					if _, isLit := unparen(init).(*ast.BasicLit); !isLit {
+						continue
+					}
+				}
+				consts = append(consts, hc{n, h.Name(v)})
+			}
+			sort.Slice(consts, func(i, j int) bool { return consts[i].constName < consts[j].constName })
+			if len(consts) == 0 {
+				return "", fmt.Errorf("%s: no Hash constants found", pkg)
 			}
 			fmt.Fprintf(&b, "/-- `%s/hash.go`: (constant identifier, `Hash.String()` = its slice of `_Hash_text`); sorted by identifier -/\n", pkg)
 			fmt.Fprintf(&b, "def %s : List (Nat × Nat) := [\n", pkg)
